@@ -93,16 +93,55 @@ func rawElement(p ref.Pt, l *big.Int) *secp256k1.Element {
 
 func points() []point {
 	g2 := ref.Secp.Double(ref.G())
+	scaled := func() *secp256k1.Element {
+		return rawElement(g2, new(big.Int).Add(new(big.Int).Lsh(big.NewInt(1), 128), big.NewInt(5)))
+	}
 
+	// Besides fixed points built from raw limbs, points with a HISTORY: whatever the library may remember about an
+	// element from earlier calls (a memoised affine form or encoding, say) must not make the ladder's work depend
+	// on the scalar either.
 	return []point{
 		{"G", func() *secp256k1.Element { return rawElement(ref.G(), big.NewInt(1)) }},
-		{"2G scaled by 2^128+5", func() *secp256k1.Element {
-			return rawElement(g2, new(big.Int).Add(new(big.Int).Lsh(big.NewInt(1), 128), big.NewInt(5)))
-		}},
+		{"2G scaled by 2^128+5", scaled},
 		{"identity (0:7:0)", func() *secp256k1.Element { return rawElement(ref.Infinity(), big.NewInt(7)) }},
 		// the Go zero value of the exported type: not a group element, but a value any caller can hold; whatever
 		// Multiply does with it must still not depend on the scalar
 		{"zero-value Element (0:0:0)", func() *secp256k1.Element { return secp256k1.VerifBlankElement() }},
+		{"Base()", func() *secp256k1.Element { return secp256k1.Base() }},
+		{"scaled 2G after Encode", func() *secp256k1.Element { e := scaled(); e.Encode(); return e }},
+		{"scaled 2G after EncodeUncompressed+Hex", func() *secp256k1.Element { e := scaled(); e.EncodeUncompressed(); _ = e.Hex(); return e }},
+		{"copy of an encoded scaled 2G", func() *secp256k1.Element { e := scaled(); e.Encode(); return e.Copy() }},
+		{"Set from an encoded scaled 2G", func() *secp256k1.Element { e := scaled(); e.Encode(); return secp256k1.NewElement().Set(e) }},
+		{"scaled 2G after Equal/IsIdentity/use as Add argument", func() *secp256k1.Element {
+			e := scaled()
+			e.Equal(secp256k1.Base())
+			e.IsIdentity()
+			secp256k1.Base().Add(e)
+
+			return e
+		}},
+		{"decoded from its compressed encoding", func() *secp256k1.Element {
+			e := secp256k1.NewElement()
+			_ = e.Decode(ref.Enc(g2))
+
+			return e
+		}},
+		{"decoded from its uncompressed encoding, then encoded", func() *secp256k1.Element {
+			e := secp256k1.NewElement()
+			_ = e.Decode(ref.EncUncompressed(g2))
+			e.Encode()
+
+			return e
+		}},
+		{"HashToGroup output", func() *secp256k1.Element {
+			return secp256k1.HashToGroup([]byte("c19"), []byte("VERIF-C19-dst-0123456789"))
+		}},
+		{"result of a previous Multiply, encoded", func() *secp256k1.Element {
+			e := secp256k1.Base().Multiply(newScalar(big.NewInt(77)))
+			e.Encode()
+
+			return e
+		}},
 	}
 }
 
@@ -248,7 +287,7 @@ func C19(r *ev.Report) {
 	ks := c19Scalars(ev.Thorough())
 	pts := points()
 
-	r.Rule("instrumented build (verifrt.Enter at every function entry of the three packages): for each of 4 fixed points (G, a re-scaled 2G, a non-canonical identity, and the zero value of the Element type) the sequence of internal/field function entries during Multiply(k) is compared (incremental hash + length; full re-recording on mismatch) with the sequence for k = 0, for every k of the alphabet: all scalars within 1 (thorough: 2) bit-deviations of 0 and of n-1, 0..64, the boundary alphabet K (2^i+-1, n-1-2^i, around n/2 and 2^255, limb products); k = 1 is the documented shortcut and excluded; non-trivial = all (distinct scalars)")
+	r.Rule("instrumented build (verifrt.Enter at every function entry of the three packages): for each of 14 fixed points (G, a re-scaled 2G, a non-canonical identity, the zero value of the Element type, Base(), and points with a history: encoded before, copied or Set from an encoded point, used in Equal / as an Add argument, decoded, hashed, produced by a previous Multiply) the sequence of internal/field function entries during Multiply(k) is compared (incremental hash + length; full re-recording on mismatch) with the sequence for k = 0, for every k of the alphabet: all scalars within 1 (thorough: 2) bit-deviations of 0 and of n-1, 0..64, the boundary alphabet K (2^i+-1, n-1-2^i, around n/2 and 2^255, limb products); k = 1 is the documented shortcut and excluded; non-trivial = all (distinct scalars)")
 	r.Bound("scalars", len(ks))
 	r.Bound("points", len(pts))
 	r.Bound("instrumented_functions", len(verifrt.Names))
